@@ -310,12 +310,17 @@ fn cmd_plan(a: &[String]) -> Result<u8, String> {
 fn cmd_digest(a: &[String]) -> Result<u8, String> {
     let id = a.first().ok_or("id")?;
     let tier = Tier::parse(a.get(1).ok_or("tier")?).ok_or("tier")?;
-    let from: u64 = a.get(2).ok_or("from")?.parse().map_err(|_| "from")?;
-    let to: u64 = a.get(3).ok_or("to")?.parse().map_err(|_| "to")?;
     let threads: usize = a.get(4).ok_or("threads")?.parse().map_err(|_| "threads")?;
     let sc = scenario(id)?;
     engine::install_panic_hook();
-    let to = to.min(sc.total_runs(tier));
+    let span: u64 = a.get(3).ok_or("to")?.parse().map_err(|_| "to")?;
+    // "mid": a window in the seeded part of the index space (the sweep prefix is covered by from = 0)
+    let from: u64 = match a.get(2).map(String::as_str) {
+        Some("mid") => sc.total_runs(tier).saturating_sub(span + 1) / engine::BLOCK * engine::BLOCK,
+        Some(x) => x.parse().map_err(|_| "from")?,
+        None => return Err("from".into()),
+    };
+    let to = (from + span).min(sc.total_runs(tier));
     let b = engine::run_batch(&*sc, seed_from_env(), tier, threads, from, to, None);
     if !b.harness_errors.is_empty() {
         return Err(b.harness_errors.join("; "));
@@ -340,15 +345,15 @@ fn cmd_determinism(a: &[String]) -> Result<u8, String> {
     for id in &ids {
         for s in 0..nseeds {
             let seed = base.wrapping_add(s.wrapping_mul(0x9E37_79B9));
-            let run = |threads: usize, from: u64| -> Result<String, String> {
-                let out = Command::new(&exe).args(["digest", id, "quick", &from.to_string(), &(from + span).to_string(), &threads.to_string()]).env("VERIF_SEED", seed.to_string()).output().map_err(|e| e.to_string())?;
+            let run = |threads: usize, from: &str| -> Result<String, String> {
+                let out = Command::new(&exe).args(["digest", id, "quick", from, &span.to_string(), &threads.to_string()]).env("VERIF_SEED", seed.to_string()).output().map_err(|e| e.to_string())?;
                 if !out.status.success() {
                     return Err(format!("digest run failed: {}", String::from_utf8_lossy(&out.stderr)));
                 }
                 Ok(String::from_utf8_lossy(&out.stdout).lines().find(|l| l.starts_with("DIGEST")).unwrap_or("").to_string())
             };
             // vary the window so that both the sweep prefix and the seeded part are covered
-            let from = if s % 2 == 0 { 0 } else { 1_000_003 % 7919 * 256 };
+            let from = if s % 2 == 0 { "0" } else { "mid" };
             let d1 = run(1, from)?;
             let d16 = run(16, from)?;
             let d5 = run(5, from)?;
@@ -359,7 +364,7 @@ fn cmd_determinism(a: &[String]) -> Result<u8, String> {
                 println!("NONDETERMINISM property={id} seed={seed}: 1w='{d1}' 16w='{d16}' 5w='{d5}' 1w-again='{d1b}'");
             }
         }
-        println!("determinism {id}: {nseeds} seeds x 4 processes (1, 16, 5, 1 workers) x {span} runs: ok");
+        println!("determinism {id}: {nseeds} seeds x 4 processes (1, 16, 5, 1 workers) x {span} runs (windows: sweep prefix and seeded tail), divergent so far: {bad}");
     }
     println!("determinism: {n} seed/property pairs, {bad} divergent");
     if bad > 0 {
